@@ -163,11 +163,18 @@ def check_call(spec, pipe_for, out, kw, listed, orders, entries=ENTRIES):  # noq
     return res
 
 
-def calls_for(spec, p):
-    """(out, kw, listed) for every output and every listed combination (+ omissions of defaulted roots)."""
+def calls_for(spec, p, on_error=None):
+    """(out, kw, listed) for every output and every listed combination (+ omissions of defaulted roots).
+
+    an output whose arg_combinations() raises is reported through on_error(out, exc) and skipped"""
     defaults = gen_dag.pipeline_defaults(spec)
     for out in gen_dag.all_outputs(spec):
-        combos = sorted(_quiet(p.arg_combinations, out))
+        try:
+            combos = sorted(_quiet(p.arg_combinations, out))
+        except Exception as e:  # noqa: BLE001
+            if on_error is not None:
+                on_error(out, e)
+            continue
         for cut in combos:
             kw = {a: f"<{a}>" for a in cut}
             yield out, kw, True
@@ -204,7 +211,13 @@ def run_spec(spec, acc, all_orders=True):
     for f in gen_dag.features(spec):
         acc.stratum("pipelines-with-" + f)
     acc.stratum("pipelines")
-    for out, kw, listed in calls_for(spec, p0):
+    def listing_failed(out, e):
+        acc.case(None)
+        acc.violation(findings.exc_sig(e, entry="arg_combinations", deco=spec.get("deco")),
+                      {"spec": spec, "focus": {"out": out, "listing": True}, "all_orders": all_orders},
+                      f"arg_combinations({out!r}) raised {type(e).__name__}: {str(e)[:160]}")
+
+    for out, kw, listed in calls_for(spec, p0, listing_failed):
         deep = gen_dag.depth_of(spec, out) >= 2
         acc.case((gen_dag._key(spec), str(out), tuple(sorted(kw))) if deep else None)
         acc.stratum("calls-listed" if listed else "calls-default-omitted")
